@@ -368,6 +368,38 @@ func freshRelID(r *Run, onlyKind string, min int) {
 			}
 		}
 		if !intoExisting {
+			// the literal is first appended to a fresh slice which is then extended with an existing
+			// list (relationships = append(relationships, Relationship{…}); … append(relationships, existing...))
+			var al *ssa.Alloc
+			switch b := rl.Base.(type) {
+			case *ssa.Alloc:
+				al = b
+			case *ssa.IndexAddr:
+				al, _ = b.X.(*ssa.Alloc)
+			}
+			if al != nil {
+				flow := forwardFlow(al, nil)
+				for use := range flow {
+					c, ok := use.(*ssa.Call)
+					if !ok {
+						continue
+					}
+					if bi, ok := c.Call.Value.(*ssa.Builtin); !ok || bi.Name() != "append" || len(c.Call.Args) != 2 {
+						continue
+					}
+					for _, a := range c.Call.Args {
+						if ai, isInstr := a.(ssa.Instruction); isInstr && flow[ai] {
+							continue // the literal's own flow
+						}
+						if chain, _ := addrChain(a); len(chain) > 0 {
+							intoExisting = true
+							rl.List = listName(chain) + "(merged)"
+						}
+					}
+				}
+			}
+		}
+		if !intoExisting {
 			continue // a fresh list with only library-chosen ids
 		}
 		if onlyKind != "" && kind != onlyKind {
